@@ -256,7 +256,10 @@ func (ex *Exec) funcRef(f FuncV) Term {
 	}
 	if f.Fn != nil && len(f.Free) == 0 && f.Recv == nil {
 		name := "fn." + sanitize(f.Fn.String())
-		ex.vc.DeclareFun(name, nil, SInt)
+		if _, ok := ex.vc.byName[name]; !ok {
+			ex.vc.DeclareFun(name, nil, SInt)
+			ex.vc.AssumeRaw(fmt.Sprintf("(> %s 0)", name), "a declared function is not nil")
+		}
 		return Term{name, SInt}
 	}
 	// closures: a fresh ref per creation
